@@ -14,9 +14,9 @@ import (
 // the canonical-form check out, each with the argument why they cannot create
 // a full set spelled as three ranges.
 var canonExceptions = map[string]string{
-	"netpol/internal/common.(*ConnectionSet).Intersection": "the only store copies an entry of `other` into a receiver that was AllowAll, and only when other.AllowAll is false: the result equals `other`, which is canonical by induction (a canonical set that is not AllowAll is not full)",
-	"netpol/internal/common.(*ConnectionSet).addAllConns":  "unexported; deliberately spells the full set as three ranges inside Subtract, immediately before a non-empty, non-full set is subtracted from it",
-	"netpol/internal/common.(*ConnectionSet).Subtract":     "expands AllowAll through addAllConns and then removes a non-empty subtrahend; the subtrahend holds a numeric port wherever it holds anything, because named ports enter a set only for unknown/representative destinations (exposure analysis), where admin policies - the only users of Subtract - are rejected at insertion",
+	"netpol/internal/common.(*ConnectionSet).Intersection":                        "the only store copies an entry of `other` into a receiver that was AllowAll, and only when other.AllowAll is false: the result equals `other`, which is canonical by induction (a canonical set that is not AllowAll is not full)",
+	"netpol/internal/common.(*ConnectionSet).addAllConns":                         "unexported; deliberately spells the full set as three ranges inside Subtract, immediately before a non-empty, non-full set is subtracted from it",
+	"netpol/internal/common.(*ConnectionSet).Subtract":                            "expands AllowAll through addAllConns and then removes a non-empty subtrahend; the subtrahend holds a numeric port wherever it holds anything, because named ports enter a set only for unknown/representative destinations (exposure analysis), where admin policies - the only users of Subtract - are rejected at insertion",
 	"netpol/internal/common.(*ConnectionSet).ReplaceNamedPortWithMatchingPortNum": "the replaced name moves to ExcludedNamedPorts, so the port set is not IsAll() afterwards and the protocol cannot complete a full set",
 }
 
